@@ -5,14 +5,21 @@ EXTENDS MCRPC
 (* R: the harness performs one environment step (send a message, release a blocked method,  *)
 (* let the timeout elapse, make the service notify) and waits until the server is quiescent *)
 (* (testing/synctest).  Internal steps therefore have priority over environment steps.      *)
+CONSTANT Gated    \* TRUE: the harness holds the timer function between cancel() and the error response
+                  \* (verif hook in rpc/handler.go), so TimerRespond is an environment step
+
 VARIABLE act
 
+SInternal == \E p \in Procs : Start(p) \/ Loop(p) \/ Return(p) \/ CtxReturn(p) \/ Fin1(p) \/ Fin2(p) \/ Fin3(p)
+                                \/ (~Gated /\ TimerRespond(p))
+
 SchedNext ==
-  \/ ENABLED Internal /\ Internal /\ act' = [op |-> "tau", p |-> 0, m |-> [batch |-> FALSE, items |-> <<>>]]
-  \/ ~ENABLED Internal /\
+  \/ ENABLED SInternal /\ SInternal /\ act' = [op |-> "tau", p |-> 0, m |-> [batch |-> FALSE, items |-> <<>>]]
+  \/ ~ENABLED SInternal /\
        \/ \E m \in Messages : Recv(m) /\ act' = [op |-> "Recv", p |-> nrecv + 1, m |-> m]
        \/ \E p \in Procs :
             \/ Release(p) /\ act' = [op |-> "Release", p |-> p, m |-> [batch |-> FALSE, items |-> <<>>]]
+            \/ Gated /\ TimerRespond(p) /\ act' = [op |-> "TimerBody", p |-> p, m |-> [batch |-> FALSE, items |-> <<>>]]
             \/ (TimerFire(p) \/ TimerCancel(p)) /\ act' = [op |-> "Timer", p |-> p, m |-> [batch |-> FALSE, items |-> <<>>]]
        \/ \E j \in 1..Len(subs) : Notify(j) /\ act' = [op |-> "Notify", p |-> j, m |-> [batch |-> FALSE, items |-> <<>>]]
 SchedInit == Init /\ act = [op |-> "init", p |-> 0, m |-> [batch |-> FALSE, items |-> <<>>]]
@@ -20,9 +27,10 @@ SchedSpec == SchedInit /\ [][SchedNext]_<<vars, act>>
 
 (* what the harness observes at a quiescent point: the parsed output, which methods are blocked *)
 OutObs == [x \in 1..Len(out) |-> [t |-> out[x].t, rs |-> out[x].rs, sub |-> out[x].sub, k |-> out[x].k]]
-Obs == [out |-> OutObs, blocked |-> [p \in Procs |-> pc[p] = "blocked"],
+Obs == [out |-> OutObs, blocked |-> [p \in Procs |-> pc[p] \in {"blocked", "cblocked"}],
+        gate |-> [p \in Procs |-> timer[p] = "fired"],
         served |-> (Mode = "http" /\ nrecv >= 1 /\ \A p \in 1..nrecv : pc[p] = "done")]
 Key == vars
 Edge == PrintT(<<"EDGE", ToJson([from |-> Key, act |-> act', to |-> Key'])>>)
-StateOut == PrintT(<<"STATE", ToJson([key |-> Key, obs |-> Obs, quiet |-> ~ENABLED Internal])>>)
+StateOut == PrintT(<<"STATE", ToJson([key |-> Key, obs |-> Obs, quiet |-> ~ENABLED SInternal, ok |-> (AtMostOnce /\ ExactlyOnce)])>>)
 =============================================================================
